@@ -434,3 +434,159 @@ pub fn run_batch(scn_seed: u64, params: &crate::Params, out: &mut ScnOut) {
         }
     }
 }
+
+// =============================================================================================
+// C01 across a whole lap of the 20-bit packet id space ("pid-lap")
+
+/// The harness sends just under 2^20 tiny unordered packets (about a hundred per frame, so only
+/// ~10^4 frames) to a real receiving HalfConnection, which delivers them all; then copies of the
+/// very first data frames arrive again — late duplicates whose packet ids have meanwhile come
+/// round and sit inside the receiver's packet window once more. Only the frame id tells them
+/// apart. Oracle: no payload index is delivered twice, and per channel the indices increase.
+pub fn run_pid_lap(seed: u64, out: &mut ScnOut) {
+    let mut rng = Rng::new(seed);
+    let window = 4096u32;
+    let me = SideCfg { nonce: rng.u32(), max_send_rate: 1_000_000, max_receive_rate: u32::MAX, rx_alloc: 8 << 20, keepalive: Some(5000) };
+    let peer_nonce = match rng.below(3) {
+        0 => 0xFFFFFu32.wrapping_sub(rng.below(5000) as u32) | (rng.u32() << 20),
+        1 => 0u32.wrapping_sub(rng.below(20000) as u32),
+        _ => rng.u32(),
+    };
+    let peer = SideCfg { nonce: peer_nonce, max_send_rate: u32::MAX, max_receive_rate: u32::MAX, rx_alloc: 1 << 20, keepalive: None };
+    uv::time::set_virtual_ns(Some(0));
+    uv::rng::set_seed(Some(mix(seed, 81)));
+    let mut hc = guarded(11, || uv::HalfConnection::new(hc_config(&me, &peer, window)));
+    // how far short of a full lap the stream stops: the replayed ids then lie this far ahead of
+    // the receiver's packet window base (inside the window)
+    let short = rng.range(1, window as u64 - 200) as usize;
+    let total = (1usize << 20) - short;
+    let per_frame = rng.range(40, 110) as usize;
+    let chans: Vec<u8> = (0..3).map(|_| rng.below(64) as u8).collect();
+    let base_pid = peer.nonce & PID_MASK;
+    let mut next_frame = peer.nonce;
+    let mut early: Vec<Vec<u8>> = Vec::new();
+    let mut seen = vec![0u64; (1 << 20) / 64 + 1];
+    let mut last_on_chan: [i64; 64] = [-1; 64];
+    let mut viol: Vec<Violation> = Vec::new();
+    let mut c = Counters::default();
+    let mut now_ns = 0u64;
+    let mut stopped = false;
+    let mut sent = 0usize;
+    macro_rules! call {
+        ($label:expr, $what:expr, $body:expr) => {{
+            let r = std::panic::catch_unwind(std::panic::AssertUnwindSafe(|| guarded($label, || $body)));
+            alloc::set_tag(alloc::TAG_HARNESS);
+            match r {
+                Ok(v) => Some(v),
+                Err(e) => {
+                    let m = crate::panic_message(&e);
+                    viol.push(Violation::new("C03", "panic", &format!("panic:{}", crate::panic_site(&m)), format!("{} panicked: {} (pid-lap)", $what, m)));
+                    stopped = true;
+                    None
+                }
+            }
+        }};
+    }
+    let mut deliver = |hc: &mut uv::HalfConnection, viol: &mut Vec<Violation>, c: &mut Counters, phase: &str| {
+        let mut got: Vec<Box<[u8]>> = Vec::new();
+        {
+            let mut sink = PktSink { pkts: &mut got };
+            hc.receive(&mut sink);
+        }
+        for g in got.iter() {
+            c.inc("deliveries");
+            if g.len() != 9 {
+                viol.push(Violation::new("C01", "delivered-unknown", "C01:lap:delivered-unknown", format!("a {}-byte payload was delivered, every packet sent has 9 bytes", g.len())));
+                continue;
+            }
+            let idx = u64::from_le_bytes([g[0], g[1], g[2], g[3], g[4], g[5], g[6], g[7]]) as usize;
+            let ch = g[8] as usize % 64;
+            if idx >= (1 << 20) {
+                viol.push(Violation::new("C01", "delivered-unknown", "C01:lap:delivered-unknown", format!("payload index {} was never sent", idx)));
+                continue;
+            }
+            if seen[idx / 64] >> (idx % 64) & 1 == 1 {
+                if viol.iter().all(|v| v.sig != "C01:lap:delivered-twice") {
+                    viol.push(Violation::new("C01", "delivered-twice", "C01:lap:delivered-twice", format!("packet #{} was handed to the application a second time ({}; {} packets after the original: its 20-bit id has come round and only the frame id tells the late copy apart)", idx, phase, total)));
+                }
+                c.inc("lap_duplicates_delivered");
+            }
+            seen[idx / 64] |= 1 << (idx % 64);
+            if (idx as i64) < last_on_chan[ch] {
+                if viol.iter().all(|v| v.sig != "C01:lap:channel-order") {
+                    viol.push(Violation::new("C01", "channel-order", "C01:lap:channel-order", format!("channel {}: packet #{} delivered after #{} ({})", ch, idx, last_on_chan[ch], phase)));
+                }
+            }
+            last_on_chan[ch] = last_on_chan[ch].max(idx as i64);
+        }
+    };
+    while sent < total && !stopped {
+        let n = per_frame.min(total - sent);
+        let mut datagrams = Vec::with_capacity(n);
+        for k in 0..n {
+            let idx = sent + k;
+            let ch = chans[idx % 3];
+            let mut data = (idx as u64).to_le_bytes().to_vec();
+            data.push(ch);
+            datagrams.push(RDatagram { sequence_id: pid_add(base_pid, idx as u32), channel_id: ch, window_parent_lead: 0, channel_parent_lead: 0, fragment_id: 0, fragment_id_last: 0, data });
+        }
+        sent += n;
+        let bytes = encode(&RFrame::Data { sequence_id: next_frame, nonce: rng.chance(0.5), datagrams });
+        next_frame = next_frame.wrapping_add(1);
+        if early.len() < 6 {
+            early.push(bytes.clone());
+        }
+        now_ns += MS;
+        uv::time::set_virtual_ns(Some(now_ns));
+        if let Some(Some(uv::frame::Frame::DataFrame(df))) = call!(9, "Frame::read", uv::frame::Frame::read(&bytes)) {
+            call!(4, "handle_data_frame", hc.handle_data_frame(df));
+            c.inc("lap_frames");
+        }
+        if stopped {
+            break;
+        }
+        call!(1, "step()", hc.step());
+        if stopped {
+            break;
+        }
+        call!(7, "receive()", deliver(&mut hc, &mut viol, &mut c, "first pass"));
+        if rng.chance(0.02) {
+            let mut sink = NullSink;
+            call!(2, "flush()", hc.flush(&mut sink));
+        }
+    }
+    let delivered_first = c.get("deliveries");
+    // the late duplicates
+    if !stopped {
+        for b in early.iter() {
+            now_ns += MS;
+            uv::time::set_virtual_ns(Some(now_ns));
+            if let Some(Some(uv::frame::Frame::DataFrame(df))) = call!(9, "Frame::read", uv::frame::Frame::read(b)) {
+                call!(4, "handle_data_frame", hc.handle_data_frame(df));
+                c.inc("lap_late_duplicate_frames");
+            }
+            if stopped {
+                break;
+            }
+            call!(1, "step()", hc.step());
+            call!(7, "receive()", deliver(&mut hc, &mut viol, &mut c, "after late duplicates of the first frames"));
+        }
+    }
+    let _ = std::panic::catch_unwind(std::panic::AssertUnwindSafe(|| guarded(11, || drop(hc))));
+    alloc::set_tag(alloc::TAG_HARNESS);
+    let _ = alloc::take_violations();
+    uv::time::set_virtual_ns(None);
+    uv::rng::set_seed(None);
+    out.evals += 1;
+    c.add("lap_packets_sent", total as i128);
+    if delivered_first as usize >= total * 9 / 10 && c.get("lap_late_duplicate_frames") >= 1 {
+        out.nontrivial += 1;
+        out.sigs.push(mix(seed, total as u64));
+    } else if !stopped {
+        out.inconclusive.push(format!("pid-lap: only {} of {} packets were delivered in the first pass", delivered_first, total));
+    }
+    for (k, v) in c.items {
+        out.counters.add(k, v);
+    }
+    out.violations.extend(viol);
+}
